@@ -36,21 +36,34 @@ def query (c : Content) (q : Json) : Except String Json := do
         pure (init.map fun kv => (kv.1, (u.lookup kv.1).getD kv.2))))
   | [.str "pvals"] => pure (resJ (assocJ ratJ) (Mxl.getParameterValues c))
   | [.str "classes"] => pure (resJ (fun p => Json.arr #[strsJ p.1, strsJ p.2]) (Mxl.getClasses c))
-  | [.str "args", v, t] => pure (resJ (assocJ ratJ) (Mxl.getArgs c (← optVars v) (← jRat t)))
-  | [.str "fluxes", v, t] => pure (resJ (assocJ ratJ) (Mxl.getFluxes c (← optVars v) (← jRat t)))
+  | [.str "args", v, t] => do
+      let vs ← optVars v; let tt ← jRat t
+      pure (resJ (assocJ ratJ) (Mxl.guardFlux c vs tt (Mxl.getArgs c vs tt)))
+  | [.str "fluxes", v, t] => do
+      let vs ← optVars v; let tt ← jRat t
+      pure (resJ (assocJ ratJ) (Mxl.guardFlux c vs tt (Mxl.getFluxes c vs tt)))
   | [.str "rhs", v, t] =>
       -- an explicit state goes through `getRhs` (= `get_right_hand_side(variables, time)`, the function of
       -- `C01_entry_points_agree`), the default state through `getRhsQ`
       match ← optVars v with
-      | some vars => pure (resJ (assocJ ratJ) (Mxl.getRhs c vars (← jRat t)))
-      | none => pure (resJ (assocJ ratJ) (Mxl.getRhsQ c none (← jRat t)))
-  | [.str "call", t, xs] => pure (resJ ratsJ (Mxl.callRhs c (← jRat t) (← jList jRat xs)))
+      | some vars => do
+          let tt ← jRat t
+          pure (resJ (assocJ ratJ) (Mxl.guardFlux c (some vars) tt (Mxl.getRhs c vars tt)))
+      | none => do
+          let tt ← jRat t
+          pure (resJ (assocJ ratJ) (Mxl.guardFlux c none tt (Mxl.getRhsQ c none tt)))
+  | [.str "call", t, xs] => do
+      let tt ← jRat t; let xv ← jList jRat xs
+      pure (resJ ratsJ (Mxl.guardFlux c (some ((omKeys c.vars).zip xv)) tt (Mxl.callRhs c tt xv)))
   | [.str "stoichvar", v, t, x] =>
-      pure (resJ (assocJ ratJ) (Mxl.getStoichOfVar c (← jStr x) (← optVars v) (← jRat t)))
+      let vs ← optVars v; let tt ← jRat t
+      pure (resJ (assocJ ratJ) (Mxl.guardFlux c vs tt (Mxl.getStoichOfVar c (← jStr x) vs tt)))
   | [.str "tc", rows] => do
       let rs ← jList (jPair jRat (jAssoc jRat)) rows
-      let a := Mxl.getArgsTC c rs
-      let f := Mxl.getFluxesTC c rs
+      let g {α} (r : Except Err α) : Except Err α :=
+        rs.foldl (fun acc row => Mxl.guardFlux c (some row.2) row.1 acc) r
+      let a := g (Mxl.getArgsTC c rs)
+      let f := g (Mxl.getFluxesTC c rs)
       let r := match a with
         | .ok argRows => Mxl.getRhsTC c ((rs.map (·.1)).zip argRows)
         | .error e => .error e
@@ -64,7 +77,8 @@ def query (c : Content) (q : Json) : Except String Json := do
       let rowsJ := fun (x : List (List (String × Rat))) => Json.arr (x.map (assocJ ratJ)).toArray
       pure (resJ rowsJ (Mxl.getArgsSelTC c rs (← flags fl)))
   | [.str "stoich", v, t] =>
-      pure (resJ (assocJ (assocJ ratJ)) (Mxl.getStoich c (← optVars v) (← jRat t)))
+      let vs ← optVars v; let tt ← jRat t
+      pure (resJ (assocJ (assocJ ratJ)) (Mxl.guardFlux c vs tt (Mxl.getStoich c vs tt)))
   | _ => .error s!"bad query {q.compress}"
 
 def handle (j : Json) : Except String Json := do
